@@ -40,6 +40,7 @@ def strata(tier):
     yield 'S1', programs.s1
     yield 'SV', programs.sv
     yield 'SL', programs.sl
+    yield 'VS', programs.vs
     yield 'S2', programs.s2
     yield 'S3', (lambda: programs.s3(5)) if tier == 'quick' else (lambda: programs.s3(6))
     yield 'S4', (lambda: programs.s4(8)) if tier == 'quick' else (lambda: programs.s4(None))
@@ -48,7 +49,7 @@ def strata(tier):
 def blocks(tier, seed):
     out = []
     for name, _ in strata(tier):
-        nb = {'S1': 8, 'SV': 2, 'SL': 4, 'S2': 16, 'S3': 64 if tier == 'quick' else 256, 'S4': 32 if tier == 'quick' else 96}[name]
+        nb = {'S1': 8, 'SV': 2, 'SL': 4, 'VS': 1, 'S2': 16, 'S3': 64 if tier == 'quick' else 256, 'S4': 32 if tier == 'quick' else 96}[name]
         for b in range(nb):
             out.append({'stratum': name, 'b': b, 'nb': nb})
     return out
@@ -60,7 +61,7 @@ class NS:
 
 def equation_paths(symbols, names, span_len, t):
     """Execute the normalised `Symbol.equation` texts (backticks stripped) over recording values."""
-    eqs = [s.equation.replace('`', '') for s in symbols if s.equation is not None and s.type.name == 'ENDOGENOUS']
+    eqs = [s.equation.replace('`', '').strip('\n') for s in symbols if s.equation is not None and s.type.name in ('ENDOGENOUS', 'VERBATIM')]
     codes = [compile(e, '<equation>', 'exec') for e in eqs]
 
     def once():
